@@ -209,10 +209,68 @@ func dischargeOne(o *Obl, dir string, timeoutS int, all bool) {
 		o.Status, o.Solver, o.Time = r.status, r.solver, r.dur
 		return
 	}
-	// first attempt: cone-of-influence slice, one quick solver
-	if sl := slicePC(o.PC, o.Goal, 3); sl != nil {
+	// first attempt: cone-of-influence slice; recursive spec functions that the goal does not mention
+	// stay uninterpreted (fewer facts: can only make the proof fail, never succeed wrongly)
+	// definitions needed by the goal (transitively through definition bodies)
+	defLines := strings.Split(strings.TrimSpace(o.Defs), "\n")
+	defText := map[string]string{}
+	for _, l := range defLines {
+		for _, dn := range o.DefNames {
+			if strings.HasPrefix(l, "(define-fun-rec "+sanitize(dn)+" ") || strings.HasPrefix(l, "(define-fun "+sanitize(dn)+" ") {
+				defText[dn] = l
+			}
+		}
+	}
+	needed := map[string]bool{}
+	for _, dn := range o.DefNames {
+		if termMentionsApp(o.Goal, dn) {
+			needed[dn] = true
+		}
+	}
+	for changed := true; changed; {
+		changed = false
+		for dn := range needed {
+			for _, other := range o.DefNames {
+				if !needed[other] && strings.Contains(defText[dn], sanitize(other)) {
+					needed[other] = true
+					changed = true
+				}
+			}
+		}
+	}
+	dropSome := len(needed) < len(o.DefNames)
+	sl := slicePC(o.PC, o.Goal, 3)
+	if sl == nil && dropSome {
+		sl = o.PC
+	}
+	if sl != nil {
 		so := *o
 		so.PC = sl
+		if dropSome {
+			var kd []string
+			var kn []string
+			for _, dn := range o.DefNames {
+				if needed[dn] {
+					kd = append(kd, defText[dn])
+					kn = append(kn, dn)
+				}
+			}
+			so.Defs, so.DefNames = strings.Join(kd, "\n")+"\n", kn
+			var keep []*Term
+			for _, p := range sl {
+				m := false
+				for _, dn := range o.DefNames {
+					if !needed[dn] && termMentionsApp(p, dn) {
+						m = true
+						break
+					}
+				}
+				if !m {
+					keep = append(keep, p)
+				}
+			}
+			so.PC = keep
+		}
 		sfn := strings.TrimSuffix(fn, ".smt2") + ".sliced.smt2"
 		os.WriteFile(sfn, []byte(so.smt(nil)), 0o644)
 		r := portfolio(sfn, min(5, timeoutS), false)
